@@ -20,7 +20,7 @@ func init() {
 		Run: c13,
 		Explanation: "Decides the lock discipline and the watch bookkeeping of the controller engine as shapes of the code: (R13.1) every read of ControllerEngine.controllers, controller.sources, InformerTrackingCache.active and PackagedFunctionRunner.conns happens with the owning mutex held on every path, every write with the write lock (forward lockset analysis, path-sensitive in the lock state, conditional-defer idiom handled); " +
 			"(R13.2) no return with a lock held, no unlock of an unheld lock, no re-acquisition; (R13.3) the held→acquired graph, closed over calls made under a lock, is acyclic; (R13.4) the watch start/stop actions are taken under the write lock and are dominated by a lookup of c.sources made under that write lock (re-check after upgrade); " +
-			"(R13.5) a source is recorded only on the not-already-watching edge after ok(ctrl.Watch(src)), and it is the source that was started; (R13.6) the watch collector only ever selects watch ids whose Type is compared equal to WatchTypeComposedResource; (R13.7) Start records a controller only after its constructor succeeded, IsRunning is a pure lookup, Stop per R8.6.",
+			"(R13.5) a source is recorded only on the not-already-watching edge after ok(ctrl.Watch(src)), and it is the source that was started; (R13.6) the watch collector only ever selects watch ids whose Type is compared equal to WatchTypeComposedResource; (R13.7) Start records a controller only after its constructor succeeded, IsRunning is a pure lookup; (R13.9) Stop returns nil for a running controller only after every source was stopped (event handlers removed), then cancel() and delete(controllers) — the rule shared with C08 R8.6.",
 		NotDecided:  []string{"absence of deadlock/races as a whole-program theorem (only the discipline on the named fields and mutexes)", "informer and controller-runtime behaviour", "scheduling / interleavings", "instance-sensitivity: locks are identified by struct type and field"},
 		Assumptions: []string{"sync.RWMutex semantics", "kcontroller.Controller.Watch calls the source's Start synchronously"},
 	})
@@ -461,6 +461,36 @@ func c13(c *Ctx) {
 			}
 		}
 	}
+
+	// `used` covers every reference of every listed XR: no XR and no reference is skipped
+	if gc := c.method(pkgComposite+"/watch", "GarbageCollector", "GarbageCollectWatchesNow"); gc != nil {
+		var mu *ssa.MapUpdate
+		for _, b := range gc.Blocks {
+			for _, in := range b.Instrs {
+				if m, ok := in.(*ssa.MapUpdate); ok && isBoolMap(m.Map.Type()) {
+					mu = m
+				}
+			}
+		}
+		refs := cfgx.Calls(gc, func(ci ssa.CallInstruction) bool { return strings.HasSuffix(cfgx.CalleeName(ci), ".GetResourceReferences") })
+		if mu == nil || len(refs) != 1 {
+			c.R.Unknown(load.FuncName(gc)+": used set", c.pos(gc.Pos()), "expected used[...]=true and one GetResourceReferences call")
+		} else {
+			inner := cfgx.LoopOf(mu.Block())
+			outer := cfgx.LoopOf(refs[0].Block())
+			if inner == nil || outer == nil || outer[mu.Block()] == false {
+				c.R.Bad(load.FuncName(gc)+": used set loops", c.pos(mu.Pos()), "used[...] is not filled in a loop over the references inside a loop over the listed XRs")
+			} else {
+				by, w := cfgx.LoopBypass(outer, map[*ssa.BasicBlock]bool{refs[0].Block(): true}, nil, c.posf())
+				c.R.Check(!by, load.FuncName(gc)+": every listed XR counts", c.pos(refs[0].Pos()), "every listed XR's references are read", "a listed XR can be skipped when the used kinds are computed: a composed-resource watch it still needs would be stopped", w...)
+				by2, w2 := cfgx.LoopBypass(inner, map[*ssa.BasicBlock]bool{mu.Block(): true}, nil, c.posf())
+				c.R.Check(!by2, load.FuncName(gc)+": every reference counts", c.pos(mu.Pos()), "every reference marks its kind as used", "a reference can be skipped when the used kinds are computed", w2...)
+				c.R.Check(func() bool { v, ok := cfgx.ConstBool(mu.Value); return ok && v }(), load.FuncName(gc)+": used[...]=true", c.pos(mu.Pos()), "marks the kind used", "the used set is not filled with true")
+			}
+		}
+	}
+
+	engineStopRule(c, "R13.9")
 
 	c.R.Rule("R13.7", "lifecycle: Start records the controller only after its constructor succeeded; IsRunning is a pure lookup", 3,
 		"a controller reported running that was never created, or a lookup with side effects")
